@@ -86,13 +86,16 @@ def gen_scenarios(rng: Rng, world: dict) -> list[dict]:
     ]
     loopy = [f for f in files if world["meta"][f]["kind"] in ("fixable", "jinja_fixable")] if world["cfg"]["runaway_limit"] < 10 else []
     for i in range(2):
-        if loopy and rng.chance(0.4):
+        pick_loopy = bool(loopy) and rng.chance(0.6)
+        if pick_loopy:
             f = rng.choice(loopy)
         else:
             f = rng.choice(suppressed) if suppressed and rng.chance(0.6) else rng.choice(files)
         out.append(
             {
-                "type": rng.choice(["stdin", "stdin", "api"]),
+                # (a string whose fix loop does not converge is best watched through the API, which
+                # hands back the string itself)
+                "type": rng.choice(["stdin", "api", "api"]) if pick_loopy else rng.choice(["stdin", "stdin", "api"]),
                 "file": f,
                 "cmd": rng.choice(["fix", "fix", "format"]),
                 "stdin_filename": rng.chance(0.5),
